@@ -22,6 +22,10 @@ import vlib
 LEVEL = "model_checking"
 
 LAYOUT_TOKS = {"@nl", "@sep", "@ind", "@ind?", "@out", "@out?"}
+# characters that can begin no token (spec.md "Lexical elements": white space, punctuation, keywords,
+# identifiers and literals are the only token kinds); "!" alone is not a token, a backslash must be
+# followed by a line break
+STRAY = ["$", "?", "!", "`", "\x00", "\x01", "\x7f", "\u20ac", "\\"]
 RESERVED = ["as", "async", "await", "class", "del", "except", "finally", "from", "global", "import", "is", "nonlocal", "raise", "try", "with", "yield"]
 OPTIONAL_TOKS = {"@n", "@(", "@)", "@,", "@:"}
 
@@ -145,6 +149,12 @@ def mutants(marked, rnd):
     for a, b in zip(idx, idx[1:]):
         if b == a + 1 and toks[a] != toks[b]:
             yield "swap", toks[:a] + [toks[b], toks[a]] + toks[b + 1:]
+    # one character that belongs to no token, between two tokens or at either end
+    for ch in STRAY:
+        i = rnd.choice(idx + [len(toks)]) if idx else 0
+        if ch == "\\" and (i == len(toks) or toks[i] in LAYOUT_TOKS):
+            continue            # a backslash before a line break is a line continuation, not a stray one
+        yield "stray", toks[:i] + [ch] + toks[i:]
     # a reserved word where an identifier stands
     ids = [i for i in idx if re.fullmatch(r"v\d+|fn|[pqrukwnmf]", toks[i])]
     if ids:
@@ -169,7 +179,8 @@ def near_cases(rnd, recs, n_orig, max_len):
 
 def recognise(ctx, name, cases, start):
     f = ctx.path(name + ".near")
-    vlib.write_ndjson(f, [{"id": c["id"], "toks": c["toks"]} for c in cases])
+    # (TLC only needs to know that the character is none of the language's tokens)
+    vlib.write_ndjson(f, [{"id": c["id"], "toks": ["<stray>" if t in STRAY else t for t in c["toks"]]} for c in cases])
     r = ctx.tlc("C14Rec", "C14Rec.cfg", env={"VERIF_RECS": f, "VERIF_START": start}, workers=vlib.NCPU,
                 timeout=3000, heap="12g", tag="rec-" + name)
     if r["error"] or r["rc"] != 0 or not r["finished"]:
@@ -238,7 +249,10 @@ def run_near(ctx, rnd, name, mode, recs, n_orig, max_len, cov):
             again = front_end(ctx, "re-" + name, [c], mode)[c["id"]]
             if judge_near(member, again) is None or again["text"] != o["text"]:
                 raise vlib.MachineryError("near-miss case %d not reproducible" % c["id"])
-            ctx.violation(v[0] + ("/" + c["mut"] if c["mut"] != "orig" else ""), v[1],
+            kind = c["mut"]
+            if kind == "stray":
+                kind += "-" + "".join("%02x" % b for t in c["toks"] if t in STRAY for b in t.encode("utf-8"))
+            ctx.violation(v[0] + ("/" + kind if kind != "orig" else ""), v[1],
                           {"part": "near", "mode": mode, "case": c, "member": member})
     stat["recogniser_states"] = stat.get("recogniser_states", 0) + states
     ctx.log("near %-6s %d strings (%d originals), %d members, %d recogniser states" %
